@@ -41,7 +41,11 @@ type absHint struct {
 	req     *appendReq
 	ents    []*entry
 	match   uint64
+	cut     int // recv: 1 + number of entries handled before the connection broke (0 = the whole request)
 }
+
+// absCutEnabled: cut requests also in runs under the abstract shadow (needs ARecvCut in Abs/Exec.v)
+var absCutEnabled = false
 
 type absShadow struct {
 	pay     map[string]uint64
@@ -222,6 +226,8 @@ func (a *absShadow) record(c *simCluster, n *simNode, ev string, h absHint, cras
 		lit = fmt.Sprintf("AVoteRes %d %d %s", id, h.from, coqBool(h.granted))
 	case h.kind == "send" && h.req != nil:
 		lit = fmt.Sprintf("ASend %d %s", id, a.areq(h.req, h.ents))
+	case h.kind == "recv" && h.req != nil && h.cut > 0:
+		lit = fmt.Sprintf("ARecvCut %d %s %d%%nat", id, a.areq(h.req, h.ents), h.cut-1)
 	case h.kind == "recv" && h.req != nil:
 		lit = fmt.Sprintf("ARecv %d %s", id, a.areq(h.req, h.ents))
 	case h.kind == "ack":
